@@ -7,6 +7,14 @@ HERE = os.path.dirname(os.path.abspath(__file__))
 
 # property -> (level category, engine/world, technique, level text, level note)
 CHECKS = {
+ "C06": ("exploration", "CHAIN",
+   "deterministic simulation of real builder and importer nodes: seeded histories of 20-45 blocks (thorough 30-70) built by the real miner.worker/TxPool/staking over the forge engine, imported by 2-4 real verifying nodes with different histories (one by one, seeded batches, restart from disk every 1-4 blocks, TrieDB cap, competing fork first and the main chain as a side chain), 6-16 scratch re-executions of every block on fresh state objects plus repeated whole imports; full raw-state, receipt and log comparison against the builder",
+   "Every built block (main chain and forks) must be accepted unchanged by every importer; canonical block, raw dump of the three tries (storage, code, delegation blobs) and stored receipts must equal the builder's. Map-order dependence is probed by repetition inside one process (fresh objects, Go's per-map random iteration seed); a dependence that shows in fewer than about 1 of 16 executions is likely missed within a run. Sampling, not proof.",
+   "Trusts: the forge (honest quorums). Protocol parameters of YouV5 are scaled per run (period 4-8 blocks etc.). Not decided: certificate blocks, versions below 5, blocks produced by real consensus rounds (NET), crashes inside an import (C11)."),
+ "C07": ("exploration", "CHAIN",
+   "deterministic simulation as C06 with the generator biased towards value movement (transfers, contract calls, validator create/deposit/withdraw/status/settle, delegation add/sub/settle, evidences, inactivity) over many scaled staking periods; after every block a full raw enumeration of the head state against the conservation identity with a simulator-owned escrow ledger, plus per-block subsidy, fee, penalty, withdraw-record and settlement clauses, repeated on a node reopened from disk",
+   "Identity: sum(balances) + sum(validator tokens) + sum(unfinished withdrawals) + sum(RewardsDistributable) + role pools + global residue + escrow == genesis total, after every block; losses are classified by independent signatures so that a known cause is told from a new one. Sampling, not proof.",
+   "Known findings: gas-refund minting (same root cause as the C17 finding; needs a version-gated consensus change) and LU-level settlement residue lost when an emptied validator is deleted. Escrow comes from the simulator's own ledger (receipt status + the payload it signed)."),
  "C11": ("fault_enumeration", "CHAIN",
    "seeded block-tree and offer-schedule generation (in order, out of order, duplicated, batched, interleaved forks, 11 invalid variants, future blocks) against the real InsertChain, combined with crash-point enumeration over the simulated disk's write log (restart of Prefix(k) through the real constructors) and differential non-wedging against the never-crashed node",
    "A crash point follows every logical database write of the enumerated offers (all points unless a cap of 24/60 forces a stratified sample). On the live node and on every restarted image: canonical index parent-linked from genesis to head, head state opens with the header's roots, tx lookups point into canonical blocks, every canonical block byte-identical to a valid generated block; after re-offering the interrupted offer plus one further valid block the image must reach the live node's head and state. Trees and schedules are sampled.",
@@ -27,8 +35,8 @@ CHECKS = {
    "deterministic simulation: (1) history oracle — every signature honest engines emit in the NET simulation (seeded schedules, message faults, crash/restart) is recorded, every evidence assemblable from one validator's own signatures is replayed into the real slashing code (builder and validator path) on scratch head states; (2) Byzantine fault — a validator really equivocates on a chain grown by the real block-building path, with evidence duplication/replay/late/forged variants",
    "Part 1 decides 'an honest validator is never slashable' over recorded histories of real engines; part 2 decides acceptance by builder and validator alike, exactly-once and the bounded penalty for real equivocation. Sampling, not proof. One genuine, unrepairable-without-protocol-change defect is recorded as known findings (classes honest-validator-slashable:different-hashes:<kinds>): the signed vote payload carries no vote kind.",
    "Trusts: the forge for growing chains (genuine credentials/quorums); NET stand-ins as in C02. Every other evidence accepted against an honest validator (e.g. two prevotes, which would also be a C02 violation) is still reported."),
- "C08": ("exploration", "STATE(+CHAIN)",
-   "seeded operation plans over the real StateDB with abort (revert), restart, cap-flush and copy-switch faults and a recomputation oracle after every operation and after reload",
+ "C08": ("exploration", "STATE+CHAIN",
+   "seeded operation plans over the real StateDB with abort (revert), restart, cap-flush and copy-switch faults and a recomputation oracle after every operation and after reload (STATE part); the same clauses evaluated after every block of seeded chain histories produced by the real staking handlers, on the builder and on a node reopened from disk (CHAIN part)",
    "Statistics per role/kind, the address index, delegator/validator links and per-validator sums are recomputed from the records after every operation and on reopened/restarted states. The per-validator sum clauses are decided here only for StateDB's preservation of caller-maintained values; the real staking handlers' arithmetic is decided in the CHAIN part. Sampling, not proof.",
    "Callers are operation patterns annotated with the production site they imitate; RemoveValidator (no production caller) is not driven; staleness of the GetValidators() per-object cache is counted as a diagnostic, not a violation."),
  "C10": ("fault_enumeration", "STATE",
